@@ -101,6 +101,8 @@ func genBatch(r *RNG, withBad bool, maxLines int) *Scenario {
 		func(w *World) string { return fmt.Sprintf("OutputIntervall=%d", r.PickI([]int{0, 1, 5})) },
 		func(w *World) string { return fmt.Sprintf("ETpot=%d", r.Range(1, 5)) },
 		func(w *World) string { return fmt.Sprintf("LeachingDepth=%d", r.Range(1, w.Soil.N())) },
+		// the source of the groundwater level by its number on the line (0 polygon file, 1 soil file): both exist in every project
+		func(w *World) string { return fmt.Sprintf("GroundWaterFrom=%d", r.Intn(2)) },
 	}
 	badKinds := []string{"unknown-soil", "unknown-field", "bad-texture", "bad-fractions", "weather-gap", "till-in-crop", "startyear", "weather-late", "args-no-project", "args-no-plot", "args-bad-overwrite", "weather-short", "weather-folder", "weather-unopenable"}
 	applyBad := func(bl *BatchLine, w *World) {
